@@ -259,8 +259,30 @@ func (c *clusterClient) DownloadBlob(ctx context.Context, namespace string, d co
 
 	log.WithTraceContext(ctx).With("namespace", namespace, "digest", d.Hex()).Debug("Starting blob download from origin cluster")
 
+	// All origins write into the same dst. If an origin fails after part of the
+	// blob has been written (e.g. the connection drops mid-body), trying the next
+	// origin would append the whole blob after that prefix. Rewind dst if it is
+	// seekable, else stop: the download cannot succeed anymore.
+	cw := &countingWriter{w: dst}
+	var start int64
+	seeker, seekable := dst.(io.Seeker)
+	if seekable {
+		var serr error
+		if start, serr = seeker.Seek(0, io.SeekCurrent); serr != nil {
+			seekable = false
+		}
+	}
 	err := Poll(c.resolver, c.defaultPollBackOff(), d, func(client Client) error {
-		return client.DownloadBlob(ctx, namespace, d, dst)
+		if cw.n > 0 {
+			if !seekable {
+				return errPartialDownload
+			}
+			if _, serr := seeker.Seek(start, io.SeekStart); serr != nil {
+				return fmt.Errorf("rewind destination: %s", serr)
+			}
+			cw.n = 0
+		}
+		return client.DownloadBlob(ctx, namespace, d, cw)
 	})
 	if httputil.IsNotFound(err) {
 		span.SetStatus(codes.Error, "blob not found")
@@ -350,6 +372,22 @@ func (c *clusterClient) ReplicateToRemote(namespace string, d core.Digest, remot
 	return Poll(c.resolver, c.defaultPollBackOff(), d, func(client Client) error {
 		return client.ReplicateToRemote(namespace, d, remoteDNS)
 	})
+}
+
+// errPartialDownload is returned when an origin failed after part of the blob
+// was already written to a destination which cannot be rewound.
+var errPartialDownload = errors.New("destination already holds a partial blob")
+
+// countingWriter counts the bytes written to w.
+type countingWriter struct {
+	w io.Writer
+	n int64
+}
+
+func (c *countingWriter) Write(p []byte) (int, error) {
+	n, err := c.w.Write(p)
+	c.n += int64(n)
+	return n, err
 }
 
 func shuffle(cs []Client) {
